@@ -14,6 +14,10 @@ package exthttp
 //@ method (*withHTTPCode).Unwrap
 //@   props C07 C10 C14
 //@   ensures result == self.cause
+//@ method (*withHTTPCode).SafeFormatError
+//@   props C09
+//@   requires p != nil
+//@   ensures result == self.cause
 
 //@ func WrapWithHTTPCode
 //@   props C10 C07
